@@ -100,6 +100,9 @@ type pcase struct {
 	Writes      []proto.Message
 	Ops         []cop
 	Sched       string // vfree only: 'w' = next write, 's' = the subscriber receives one change
+	// Collection.Pull only: other subscribers of the same collection with these include predicates
+	// (neighbours.go); even positions subscribe before the observed subscriber, odd ones after it
+	Neighbours []incSpec
 }
 
 type pcaseJSON struct {
@@ -114,10 +117,11 @@ type pcaseJSON struct {
 	Writes      []msgJSON `json:"writes,omitempty"`
 	Ops         []cop     `json:"ops,omitempty"`
 	Sched       string    `json:"sched,omitempty"`
+	Neighbours  []incSpec `json:"neighbours,omitempty"`
 }
 
 func (c pcase) json() pcaseJSON {
-	j := pcaseJSON{Op: c.Kind, Spec: c.Spec, NoDup: c.NoDup, Type: string(c.Type.Descriptor().FullName()), Mask: c.Mask, Inc: c.Inc, UpdatesOnly: c.UpdatesOnly, Cur: toJSON(c.Cur), Sched: c.Sched}
+	j := pcaseJSON{Op: c.Kind, Spec: c.Spec, NoDup: c.NoDup, Type: string(c.Type.Descriptor().FullName()), Mask: c.Mask, Inc: c.Inc, UpdatesOnly: c.UpdatesOnly, Cur: toJSON(c.Cur), Sched: c.Sched, Neighbours: c.Neighbours}
 	for _, w := range c.Writes {
 		j.Writes = append(j.Writes, toJSON(w))
 	}
@@ -132,7 +136,7 @@ func (j pcaseJSON) decode() (pcase, error) {
 	if err != nil {
 		return pcase{}, err
 	}
-	c := pcase{Kind: j.Op, Spec: j.Spec, NoDup: j.NoDup, Type: mt, Mask: j.Mask, Inc: j.Inc, UpdatesOnly: j.UpdatesOnly, Sched: j.Sched}
+	c := pcase{Kind: j.Op, Spec: j.Spec, NoDup: j.NoDup, Type: mt, Mask: j.Mask, Inc: j.Inc, UpdatesOnly: j.UpdatesOnly, Sched: j.Sched, Neighbours: j.Neighbours}
 	if c.Cur, err = fromJSON(j.Cur); err != nil {
 		return c, err
 	}
@@ -167,12 +171,17 @@ func (c pcase) options() []resource.Option {
 	return opts
 }
 
-func (c pcase) readOptions() []resource.ReadOption {
+func (c pcase) readOptions() []resource.ReadOption { return c.readOptionsWith(nil) }
+
+// readOptionsWith: include, when given, takes the place of the case's own include predicate.
+func (c pcase) readOptionsWith(include resource.FilterFunc) []resource.ReadOption {
 	ro := []resource.ReadOption{resource.WithBackpressure(true)}
 	if c.Mask != nil {
 		ro = append(ro, resource.WithReadMask(&fieldmaskpb.FieldMask{Paths: c.Mask}))
 	}
-	if c.Inc != nil {
+	if include != nil {
+		ro = append(ro, resource.WithInclude(include))
+	} else if c.Inc != nil {
 		inc := c.Inc
 		ro = append(ro, resource.WithInclude(func(_ string, m proto.Message) bool { return inc.holds(m) }))
 	}
@@ -358,7 +367,25 @@ func (c pcase) runCollection(out *pullOut) {
 	col := resource.NewCollection(append(c.options(), resource.WithClock(clk))...)
 	ctx, cancel := context.WithCancel(context.Background())
 	defer cancel()
-	ch := col.Pull(ctx, c.readOptions()...)
+	var nb *nbSync
+	var nbDrained sync.WaitGroup
+	ro := c.readOptions()
+	if len(c.Neighbours) > 0 {
+		nb = &nbSync{}
+		for _, spec := range c.Neighbours {
+			nb.ns = append(nb.ns, &neighbour{spec: spec})
+		}
+		ro = c.readOptionsWith(nb.observedInclude(c.Inc))
+		for i := 0; i < len(nb.ns); i += 2 {
+			nb.subscribe(ctx, col, nb.ns[i], &nbDrained)
+		}
+	}
+	ch := col.Pull(ctx, ro...)
+	if nb != nil {
+		for i := 1; i < len(nb.ns); i += 2 {
+			nb.subscribe(ctx, col, nb.ns[i], &nbDrained)
+		}
+	}
 	type rec struct {
 		t    time.Time
 		id   string
@@ -420,7 +447,14 @@ func (c pcase) runCollection(out *pullOut) {
 				extra = append(extra, resource.InterceptBefore(hook))
 			}
 		}
+		if nb != nil {
+			_, oldExists := cur[o.Id]
+			nb.begin(oldExists, o.Op != "delete")
+		}
 		nv, err := apply(o, extra...)
+		if nb != nil {
+			nb.end(err == nil)
+		}
 		if err != nil {
 			if code := status.Code(err); o.Rival != nil && (code == codes.Aborted || code == codes.NotFound) {
 				// the rival changed what this write had read: refused, nothing happened
@@ -854,15 +888,41 @@ func (g *gen) pcaseInclude() pcase {
 	return c
 }
 
+// pcaseNeighbours: an include run in which 1-3 other subscribers of the collection have include predicates
+// of their own over the same field, thresholds next to the written values (so writes carry items into and
+// out of THEIR views, also by steps inside the tolerance); the observed subscriber keeps its predicate or
+// has none.
+func (g *gen) pcaseNeighbours() pcase {
+	c := g.pcaseInclude()
+	fd := c.Type.Descriptor().Fields().ByName(pref.Name(c.Inc.Field))
+	var written []float64
+	for _, o := range c.Ops {
+		if o.msg != nil {
+			written = append(written, o.msg.ProtoReflect().Get(fd).Float())
+		}
+	}
+	for n := 1 + g.r.Intn(3); n > 0; n-- {
+		thr := written[g.r.Intn(len(written))] + []float64{0, 0, -0.125, 0.125, -0.0625, 0.0625}[g.r.Intn(6)]
+		c.Neighbours = append(c.Neighbours, incSpec{Field: c.Inc.Field, Op: []string{"gt", "lt", "ge"}[g.r.Intn(3)], Thr: thr})
+	}
+	if g.r.Intn(3) == 0 {
+		c.Inc = nil
+	}
+	return c
+}
+
 func runPull(f lib.Flags, res *lib.Result, drv *lib.Driver, ms *monitors) {
 	tie := res.Tie("pull-equivalence", "K1",
-		"random runs of Value.Pull (initial value or none, 1-6 Sets; every 5th with WithUpdatesOnly: no seed, the subscriber holds nothing, half of them first re-writing the stored value) and Collection.Pull (1-7 Add/Update/Delete on two ids; in half of the runs writers are overtaken, inside their own InterceptBefore/InterceptAfter callback - after their first read, before their locked re-validation read - by a complete rival write: another creator of the same absent id storing the empty or a non-empty message, a rival re-writing the same item with an equal or a different value, a rival writing the other id; refused writes (Aborted/NotFound) announce nothing) with backpressure, equivalence = none | WithNoDuplicates | Equal() | Equal(tolerances around the written differences) configured through WithMessageEquivalence or WithEquivalence(Comparer), read mask = none | 1-3 top-level fields; each write is the previous value mutated in 0-2 places; every third run is a Collection.Pull with WithInclude(float field gt/lt/ge threshold), equivalence none | exact | FloatValueApprox around the written steps, writes nudging the compared field, threshold on / just below / just above a written value, optional read mask (with or without the compared field). The model gets the event values the code produced and must reproduce the delivered/suppressed decision of every event. Non-trivial: distinct runs with an equivalence configured")
+		"random runs of Value.Pull (initial value or none, 1-6 Sets; every 5th with WithUpdatesOnly: no seed, the subscriber holds nothing, half of them first re-writing the stored value) and Collection.Pull (1-7 Add/Update/Delete on two ids; in half of the runs writers are overtaken, inside their own InterceptBefore/InterceptAfter callback - after their first read, before their locked re-validation read - by a complete rival write: another creator of the same absent id storing the empty or a non-empty message, a rival re-writing the same item with an equal or a different value, a rival writing the other id; refused writes (Aborted/NotFound) announce nothing) with backpressure, equivalence = none | WithNoDuplicates | Equal() | Equal(tolerances around the written differences) configured through WithMessageEquivalence or WithEquivalence(Comparer), read mask = none | 1-3 top-level fields; each write is the previous value mutated in 0-2 places; every third run is a Collection.Pull with WithInclude(float field gt/lt/ge threshold), equivalence none | exact | FloatValueApprox around the written steps, writes nudging the compared field, threshold on / just below / just above a written value, optional read mask (with or without the compared field); every sixth run is such an include run with 1-3 NEIGHBOUR subscribers on the same collection (back pressure, include predicates of their own over the same field, thresholds next to the written values, subscribed before and after the observed subscriber, which keeps its predicate or has none) whose handling of each shared event is forced to complete before the observed subscriber's read mask / equivalence check / delivery (neighbours.go). The model gets the event values the code produced and must reproduce the delivered/suppressed decision of every event. Non-trivial: distinct runs with an equivalence configured")
 	g := &gen{r: lib.NewRand(f.Seed + 104729)}
 	n := f.N(500, 6000)
 	for i := 0; i < n; i++ {
 		c := g.pcase()
 		if i%3 == 2 {
 			c = g.pcaseInclude()
+		}
+		if i%6 == 4 {
+			c = g.pcaseNeighbours()
 		}
 		mark := patience.mark()
 		out := c.runCode()
@@ -881,7 +941,7 @@ func runPull(f lib.Flags, res *lib.Result, drv *lib.Driver, ms *monitors) {
 			return
 		}
 		tie.Record(line, c.Spec != nil, c.json(), model, code)
-		tie.Count(c.Kind + ":" + map[bool]string{true: "mask", false: "nomask"}[c.Mask != nil] + map[bool]string{true: ":include", false: ""}[c.Inc != nil])
+		tie.Count(c.Kind + ":" + map[bool]string{true: "mask", false: "nomask"}[c.Mask != nil] + map[bool]string{true: ":include", false: ""}[c.Inc != nil] + map[bool]string{true: ":neighbours", false: ""}[len(c.Neighbours) > 0])
 		if c.Spec == nil {
 			tie.Count("equivalence:none")
 		} else if c.tolerance() {
